@@ -464,7 +464,7 @@ func init() {
 		ID: "C11", Level: "exploration", Race: true, Isolation: 40,
 		QuickRuns: 5000, ThoroughRuns: 80000,
 		Gen: c11GenMode("c11"), Exec: c11Exec, Shrink: c11Shrink,
-		Rule: "one case = 2-4 goroutines, each building its own VM (own flags, error language, seeded or unseeded, a third of them with a parse budget of 3-600 expressions so that parses are abandoned at arbitrary depth) and running 2-5 generated programs, interleaved by the seeded scheduler (uniform / PCT-like / run-to-conflict) at every VM instruction, every die, and around the package-level language write/read, in a -race build whose scheduler hand-off is invisible to the race detector. Oracles: zero race reports with a dicescript frame; every seeded task's outcomes (value, error text, detail, matched/rest, op count, generator state, variables) equal its isolated run; error texts in the task's own language. distinct = distinct (program texts, context-switch sequence); non-trivial = at least 2 context switches",
+		Rule: "in a quarter of the cases the VMs register the byte-identical custom dice pattern (each with a handler of its own) and parse inputs matching it; the tasks of a case share one default-sides text (valid or invalid). One case = 2-4 goroutines, each building its own VM (own flags, error language, seeded or unseeded, a third of them with a parse budget of 3-600 expressions so that parses are abandoned at arbitrary depth) and running 2-5 generated programs, interleaved by the seeded scheduler (uniform / PCT-like / run-to-conflict) at every VM instruction, every die, and around the package-level language write/read, in a -race build whose scheduler hand-off is invisible to the race detector. Oracles: zero race reports with a dicescript frame; every seeded task's outcomes (value, error text, detail, matched/rest, op count, generator state, variables) equal its isolated run; error texts in the task's own language. distinct = distinct (program texts, context-switch sequence); non-trivial = at least 2 context switches",
 		Real: []string{"dicescript package under -race with tag verif; goroutines are real"},
 		Stub: []string{"goroutine scheduling (decided by the simulator at yield hooks)", "global generators reseeded by the simulator"},
 		Assumptions: []string{"preemption only at yield points: VM instruction boundaries, Roll calls, after the language write in Parse, before the language read in the error formatter", "race detection depends on ThreadSanitizer's shadow history; a missed race is a miss, never a false alarm"},
